@@ -9,6 +9,7 @@ CONSTANTS
   FixLock = TRUE
   FixInit = TRUE
   FixIsSet = TRUE
+  DetTime = FALSE
   Locked = FALSE
 INVARIANT ActionsExactlyOnce
 CHECK_DEADLOCK FALSE
